@@ -230,6 +230,10 @@ func cuRunHist(raw json.RawMessage) interface{} {
 				}
 				rec["fresh"] = fresh
 			}
+		case "init":
+			// Initialize (Rollout entering its first step / TrafficRouting CR creation): checks objects and scripts, writes nothing
+			ctrl, _ := custom.NewCustomController(cli, conf())
+			rec["res"] = cuRes(true, ctrl.Initialize(ctx))
 		case "fin":
 			ctrl, _ := custom.NewCustomController(faulty(ev.Fail, ev.Conflict), conf())
 			mod, err := ctrl.Finalise(ctx)
@@ -338,6 +342,16 @@ func (g cuGen) hist() interface{} {
 	}
 	for i, k := 0, []int{1, 2, 2, 2, 2, 3, 3, 3}[g.n(8)]; i < k; i++ {
 		add()
+	}
+	if g.p(50) {
+		// Initialize, then (often) the user edits an object before the first step
+		events = append(events, J{"ev": "init"})
+		if g.p(60) && len(active) > 0 {
+			i := g.n(len(active))
+			m := g.goodManifest(active[i].ref, stable, canary)
+			active[i].manifest = m
+			events = append(events, J{"ev": "write", "i": i, "obj": m})
+		}
 	}
 	step := func(fail interface{}) J {
 		return J{"ev": "step", "fail": fail, "conflict": fail != nil && g.p(50), "strategy": g.strategy()}
